@@ -29,6 +29,7 @@ func runC02(w *World, r *Report) {
 
 	c02Declarations(w, r)
 	c02ClosureScanIgnoresDepth(w, r)
+	c02RegisterSiblings(w, r)
 
 	bp := w.pkg("internal/language/bytecode")
 	if bp == nil {
